@@ -19,6 +19,7 @@ CONSTANTS
   MaxLag = 2
   MaxProbes = 0
   MaxReorg = 1
+  MaxCrash = 0
   ExportOn = TRUE
   SampleMod = 40
 INIT Init
